@@ -184,6 +184,8 @@ pub struct ArtStore {
     /// ACK code the embedded / cover command answers with instead (0 = none)
     pub embedded_ack: u64,
     pub cover_ack: u64,
+    /// the failing art command prints `size:`/`type:` before its ACK
+    pub ack_after_partial_output: bool,
 }
 
 #[derive(Clone, Debug)]
@@ -785,7 +787,8 @@ impl World {
                 }
                 let code = if embedded { art.embedded_ack } else { art.cover_ack };
                 if code != 0 {
-                    return Err(ack(code, "scripted art failure".into()).into());
+                    let partial = if art.ack_after_partial_output { Some(AFrame { fields: vec![("size".to_string(), "12345".to_string()), ("type".to_string(), "image/png".to_string())], binary: None }) } else { None };
+                    return Err(Fail { partial, error: ack(code, "scripted art failure".into()) });
                 }
                 let offset = num(1) as usize;
                 let (data, mime) = if embedded {
